@@ -14,4 +14,16 @@ theorem gen_roughness_wu_eq (U elev kappa : ℝ) :
   simp only [Osu.GenArith.roughness_wu, Osu.GenArith.drag_coefficient_wu, roughnessWu, Transc.exp, Transc.sqrt]
   norm_num
 
+/-- the function whose root bounds the WAM tail-stress integral -/
+theorem gen_wam_log_height_eq (p : GenP ℝ) (ch x : ℝ) :
+    Osu.GenArith.log_dimensionless_critical_height x ch p.kappa p.zalpha = wamLogZ p ch x := by
+  simp only [Osu.GenArith.log_dimensionless_critical_height, wamLogZ, Transc.log, Transc.exp, Solv.two, Nat.cast_ofNat]
+
+/-- the Charnock relation with its cap -/
+theorem gen_charnock_point_eq (p : GenP ℝ) (m u : ℝ) (hm : p.charnockMax = some m) :
+    Osu.GenArith._charnock_relation_point u p.g p.charnock m = charnockPoint p u := by
+  simp only [Osu.GenArith._charnock_relation_point, charnockPoint, hm, gt_iff_lt]
+  have : u ^ 2 / p.g * p.charnock = u * u / p.g * p.charnock := by ring
+  rw [this]
+
 end Osu.Props.C10Gen
